@@ -335,6 +335,52 @@ fn end_to_end(rep: &Report, kind: BackendKind) {
     }
 }
 
+/// Git with a shared remote, two clones that each invented a salt before either published: what
+/// the second clone stores after adopting the first one's history must be sealed under the key
+/// of the salt that is stored next to it.
+fn two_salts(rep: &Report) {
+    let kind = BackendKind::GitRemoteFresh;
+    let r: Result<(), (String, String)> = crate::util::block_on(async {
+        let mut b = Backend::new(kind, 2).await;
+        let fail = |c: &str, w: String| (c.to_string(), w);
+        let seg1 = format!("{{\"operations\":[]}} {MARKER} one").into_bytes();
+        let seg2 = format!("{{\"operations\":[]}} {MARKER} two").into_bytes();
+        let AddVersionResult::Ok(v1) = b.handles[0].add_version(Uuid::nil(), seg1.clone()).await.map_err(|e| fail("backend-error", format!("{e:#}")))?.0 else {
+            return Err(fail("backend-error", "first version rejected".into()));
+        };
+        match b.handles[1].get_child_version(Uuid::nil()).await {
+            Ok(GetVersionResult::Version { version_id, history_segment, .. }) if version_id == v1 && history_segment == seg1 => {}
+            Ok(other) => return Err(fail("wrong-plaintext", format!("the second clone reads the first clone's version as {other:?}"))),
+            Err(e) => return Err(fail("cannot-open", format!("the second clone (same secret) cannot open the version the first clone published: {e:#}"))),
+        }
+        let AddVersionResult::Ok(v2) = b.handles[1].add_version(v1, seg2.clone()).await.map_err(|e| fail("backend-error", format!("{e:#}")))?.0 else {
+            return Err(fail("backend-error", "second version rejected".into()));
+        };
+        // what the second clone published, opened with the documented derivation from the stored salt
+        let dir = b.root.as_ref().unwrap().join("clone1");
+        let meta: serde_json::Value = serde_json::from_slice(&std::fs::read(dir.join("meta")).map_err(|e| fail("harness", e.to_string()))?).map_err(|e| fail("harness", e.to_string()))?;
+        let key = mseal::derive_key(&b64(meta["salt"].as_str().unwrap_or("")), SECRET);
+        let name = format!("v-{}-{}", v1.as_simple(), v2.as_simple());
+        let bytes = std::fs::read(dir.join(&name)).map_err(|e| fail("stored-format", format!("{name}: {e}")))?;
+        match mseal::open(&key, v2, &bytes) {
+            Ok(p) if p == seg2 => {}
+            Ok(_) => return Err(fail("wrong-plaintext", format!("{name}: opens to different bytes than were handed to the backend"))),
+            Err(e) => return Err(fail("not-documented-format", format!("{name}, written by a clone that adopted another clone's salt, does not open with the key derived from the secret and the stored salt: {e}"))),
+        }
+        match b.handles[0].get_child_version(v1).await {
+            Ok(GetVersionResult::Version { history_segment, .. }) if history_segment == seg2 => {}
+            other => return Err(fail("cannot-open", format!("the first clone cannot read the version the second clone published: {other:?}"))),
+        }
+        rep.add("evaluations", 4);
+        rep.add("stored_objects_opened", 1);
+        Ok(())
+    });
+    match r {
+        Ok(()) => println!("[C13] {kind:?}: a clone that adopted another clone's salt seals under that salt's key ({:.1}s)", rep.elapsed()),
+        Err((class, what)) => violation(rep, &format!("{class}:{kind:?}"), what, json!({"kind": "c13-backend", "backend": kind})),
+    }
+}
+
 fn b64(s: &str) -> Vec<u8> {
     // minimal base64 (standard alphabet, padded) decoder
     let mut out = vec![];
@@ -363,7 +409,7 @@ fn b64(s: &str) -> Vec<u8> {
 pub fn run(opts: &Opts) -> i32 {
     let rep = Report::new("C13", "exploration", opts);
     rep.set("exhaustive", true);
-    rep.set("rule", "4 payloads (empty, 1 byte, a JSON version, 64 KB) x 3 secrets x 3 salts x 3 version ids sealed by the crate and opened by an independent implementation of docs/src/encryption.md (ring PBKDF2-HMAC-SHA256 x600000, ChaCha20-Poly1305, AAD 0x01||version id, envelope 0x01||nonce||ct); the reverse direction (model seals, crate opens); every mismatch of secret/salt/version id; every single-byte position x all 255 other values (64 KB payload: all values at both ends, two values elsewhere), every prefix and suffix truncation, appended byte; then what the HTTP harness server, the in-memory object store and the git work tree actually hold after versions and a snapshot with a marker string were handed to the real backends, each stored version flipped one byte at a time, and the stored snapshot (in the form the backend really keeps it) flipped one byte at a time and truncated to every length, and read back through the Server; distinct_nontrivial = tampered + mismatched values tried");
+    rep.set("rule", "4 payloads (empty, 1 byte, a JSON version, 64 KB) x 3 secrets x 3 salts x 3 version ids sealed by the crate and opened by an independent implementation of docs/src/encryption.md (ring PBKDF2-HMAC-SHA256 x600000, ChaCha20-Poly1305, AAD 0x01||version id, envelope 0x01||nonce||ct); the reverse direction (model seals, crate opens); every mismatch of secret/salt/version id; every single-byte position x all 255 other values (64 KB payload: all values at both ends, two values elsewhere), every prefix and suffix truncation, appended byte; then what the HTTP harness server, the in-memory object store and the git work tree actually hold after versions and a snapshot with a marker string were handed to the real backends, each stored version flipped one byte at a time, and the stored snapshot (in the form the backend really keeps it) flipped one byte at a time and truncated to every length, and read back through the Server; two git clones that each invented a salt before either published; distinct_nontrivial = tampered + mismatched values tried");
     rep.assume("the independent implementation is self-checked against RFC 8439 2.8.2 and RFC 7914 test vectors at start-up");
     if let Err(e) = mseal::self_check() {
         eprintln!("MACHINERY ERROR: sealing model self-check failed: {e}");
@@ -376,6 +422,7 @@ pub fn run(opts: &Opts) -> i32 {
     for kind in [BackendKind::Cloud, BackendKind::Http, BackendKind::GitLocal] {
         end_to_end(&rep, kind);
     }
+    two_salts(&rep);
     rep.sample(json!({"payload": "64 KB", "secret": "correct horse battery staple", "salt": "0123456789abcdef", "tamper": "byte 13 xor 0x01"}));
     rep.sample(json!({"backend": "Http", "observed": "body of POST add-version/<parent> opened with salt = client id, AAD = parent version id"}));
     rep.finish()
